@@ -414,8 +414,7 @@ def transformWrenchFrame(wrench, old_wrench_frame, new_wrench_frame):
     Returns:
         new Wrench in the frame of new_wrench_frame
     """
-    wrench.changeFrame(new_wrench_frame, old_wrench_frame)
-    return wrench
+    return wrench.copy().changeFrame(new_wrench_frame, old_wrench_frame)
     ref = globalToLocal(old_wrench_frame, new_wrench_frame)
     return  ref.adjoint().T @ wrench
 
